@@ -182,6 +182,18 @@ def check_stat(ctx, cell, case):
         tol_c = Z * v * np.sqrt(0.5 / a.size) * (3.0 if ftype == "lognormal" else 1.0) + 1e-7
         ctx.check(abs(prod.real) <= tol_c and abs(prod.imag) <= tol_c, "C13.f_independent_gains", {**cell, "pair": name}, case, [float(prod.real), float(prod.imag)], tol_c,
                   "fading coefficients are correlated across " + name, "c13:check_stat")
+    # (f') the same for the gain MAGNITUDES (a shared large-scale factor leaves the complex products uncorrelated but couples the powers):
+    # Pearson correlation of log|h|^2 between adjacent blocks / items, ~ N(0, 1/n) under independence whatever the distribution
+    lg = np.log(np.abs(h) ** 2 + 1e-300)
+    for name, a, b in (("adjacent_blocks", lg[:, :-1], lg[:, 1:]), ("batch_items", lg[:-1, :], lg[1:, :])):
+        if a.size < 1000:
+            continue
+        a0, b0 = a - a.mean(), b - b.mean()
+        den = np.sqrt((a0 ** 2).mean() * (b0 ** 2).mean())
+        r = float((a0 * b0).mean() / den) if den > 0 else 0.0
+        tol_r = Z / np.sqrt(a.size) + 1e-6
+        ctx.check(abs(r) <= tol_r or den == 0, "C13.f_independent_gains", {**cell, "pair": name, "quantity": "log_power"}, case, r, tol_r,
+                  "fading gain magnitudes are correlated across " + name, "c13:check_stat")
     ctx.cls("stat_" + ftype)
     ctx.sample({"cell": cell, "N": n, "mean_square_gain": ms})
 
